@@ -18,7 +18,7 @@ import (
 // Evaluates every program of the history in its own scope enclosed in ONE interpreter's
 // global scope (what the playground executor does for successive executions), then prog in
 // a fresh enclosed scope; answers with prog's observation (stdout, value, error, stack trace).
-// runtest: {"files": [[name, src]...]} writes the files into a scratch directory and runs
+// runtest: {"files": [[name, src]...], "dir": scratch directory, "mode": "" | "file"} writes the files into the scratch directory and runs
 // runscript.RunTest on it (one interpreter, one scope per file); answers with its output
 // and exit code.
 type freshReq struct {
